@@ -57,17 +57,33 @@ payload_nv_harness!(inp_payload_control_8, 8, false, true);
 payload_nv_harness!(inp_payload_control_0, 0, false, true);
 
 fn payload_verbose_case(noar: u8, word: u32) {
+    let mt = if kani::any() { Some(MessageType::Log(LogLevel::Info)) } else { Some(MessageType::NetworkTrace(NetworkTraceType::Can)) };
+    payload_verbose_case_mt(noar, word, mt)
+}
+
+/// the verbose flag decides: a verbose message carries arguments whatever its message type says
+/// (a verbose message of type Control is still a list of arguments)
+fn payload_verbose_case_mt(noar: u8, word: u32, mt: Option<MessageType>) {
     let v: [u8; 3] = kani::any();
     let w = word.to_le_bytes();
     let input: [u8; 7] = [w[0], w[1], w[2], w[3], v[0], v[1], v[2]];
-    let mt = if kani::any() { Some(MessageType::Log(LogLevel::Info)) } else { Some(MessageType::NetworkTrace(NetworkTraceType::Can)) };
+    let is_nw = matches!(mt, Some(MessageType::NetworkTrace(_)));
     match dlt_payload::<LittleEndian>(&input, true, kani::any(), noar, mt) {
         Ok((rest, p)) => {
             assert!(rest.len() <= input.len());
             assert!(rest.len() == if noar == 0 { 7 } else { 2 });
             match p {
-                PayloadContent::Verbose(args) => { assert!(args.len() == noar as usize); }
-                PayloadContent::NetworkTrace(s) => { assert!(s.len() == 0); }
+                PayloadContent::Verbose(args) => {
+                    assert!(!is_nw);
+                    assert!(args.len() == noar as usize);
+                    if noar == 1 {
+                        assert!(matches!(args[0].value, Value::U8(x) if x == v[0]) || matches!(args[0].value, Value::Bool(x) if x == v[0]));
+                    }
+                }
+                PayloadContent::NetworkTrace(s) => {
+                    // only raw-data arguments become slices
+                    assert!(is_nw && s.len() == 0);
+                }
                 _ => { assert!(false); }
             }
         }
@@ -94,4 +110,18 @@ fn inp_payload_verbose_u8() {
 #[kani::unwind(12)]
 fn inp_payload_verbose_bool() {
     payload_verbose_case(1, 0x11);
+}
+
+#[kani::proof]
+#[kani::stub(alloc::fmt::format, fmt_stub)]
+#[kani::unwind(12)]
+fn inp_payload_verbose_control() {
+    let ct = if kani::any() { ControlType::Request } else { ControlType::Response };
+    payload_verbose_case_mt(1, 0x41, Some(MessageType::Control(ct)));
+}
+#[kani::proof]
+#[kani::stub(alloc::fmt::format, fmt_stub)]
+#[kani::unwind(12)]
+fn inp_payload_verbose_notype() {
+    payload_verbose_case_mt(1, 0x11, None);
 }
